@@ -142,6 +142,9 @@ impl Scenario for BlockLockstep {
         }
         let (cb, fop) = sm83::focus_encoding(index);
         case.set("focus", if cb { 0x100 } else { 0 } | fop as i64);
+        // run-length stratum (every 53rd case): the block is a run of n copies of one one-byte instruction (NOP included), with n
+        // around the byte and signed-byte limits, so that run-length or accumulated-displacement shortcuts in the translator show
+        let run_len: Option<usize> = if index % 53 == 52 { Some(rng.pick(&[2usize, 3, 126, 127, 128, 129, 130, 254, 255, 256, 257, 300, 511, 512, 513, 1000])) } else { None };
         let cart_type = rng.pick(&[0x00u8, 0x01, 0x03, 0x11, 0x13, 0x01, 0x13]);
         let rom_code: u8 = if cart_type == 0 { 0 } else { rng.pick(&[1u8, 2, 3]) };
         case.set("cart_type", cart_type as i64);
@@ -164,7 +167,7 @@ impl Scenario for BlockLockstep {
         const GRID: [u8; 16] = [0x00, 0x01, 0x0f, 0x10, 0x7f, 0x80, 0xfe, 0xff, 0x09, 0x0a, 0x99, 0x9a, 0xa0, 0x66, 0x60, 0x06];
         let round = (index / 500) % 400;
         let writes_via_bc_de = !cb && matches!(fop, 0x02 | 0x12);
-        let grid: Option<(u8, u8)> = if round < 256 && !writes_via_bc_de { Some((GRID[(round % 16) as usize], GRID[(round / 16) as usize])) } else { None };
+        let grid: Option<(u8, u8)> = if round < 256 && !writes_via_bc_de && run_len.is_none() { Some((GRID[(round % 16) as usize], GRID[(round / 16) as usize])) } else { None };
         let uses_hl_mem = if cb { fop & 7 == 6 } else { matches!(fop, 0x34 | 0x35 | 0x36 | 0x22 | 0x2a | 0x32 | 0x3a) || ((0x40..=0x7f).contains(&fop) && (fop & 7 == 6 || (fop >> 3) & 7 == 6)) || ((0x80..=0xbf).contains(&fop) && fop & 7 == 6) };
         case.set("grid", grid.is_some() as i64);
         let nbody = if grid.is_some() { 0 } else { rng.below(max_body + 1) as usize };
@@ -172,6 +175,12 @@ impl Scenario for BlockLockstep {
         let focus_is_term = !cb && sm83::is_terminator(fop);
         for _ in 0..nbody {
             code.extend(sm83::body_instruction(rng, avoid_rom_regs));
+        }
+        if let Some(n) = run_len {
+            // a one-byte instruction that neither ends the block nor moves the pointers it uses out of RAM too quickly
+            let op = if rng.chance(1, 2) { 0x00 } else { rng.pick(&[0x04u8, 0x0c, 0x3c, 0x3d, 0x07, 0x17, 0x27, 0x2f, 0x37, 0x3f, 0x80, 0x90, 0xa8, 0xb8, 0x40, 0x7f, 0x03, 0x13, 0x1b, 0x34, 0x35, 0x7e]) };
+            code = vec![op; n];
+            case.set("run_op", op as i64);
         }
         if !focus_is_term {
             if cb {
@@ -456,6 +465,11 @@ impl Scenario for BlockLockstep {
                             return out;
                         }
                         (Exec::Panicked(p), Exec::Done(_)) | (Exec::Done(_), Exec::Panicked(p)) => {
+                            if arena > 0 && matches!(ej, Exec::Panicked(_)) && p.contains("does not fit") {
+                                // artefact of the reduced arena (H2): one block larger than the whole arena
+                                ctx.cov.hit("probe.block_larger_than_reduced_arena");
+                                return out;
+                            }
                             if arena > 0 && matches!(ej, Exec::Panicked(_)) && j.cache_space() < 0x3000 {
                                 // translation ran out of the (deliberately small) arena: C03/C04's subject, not a block-semantics question
                                 ctx.cov.hit("probe.arena_exhausted_at_exec");
@@ -479,6 +493,9 @@ impl Scenario for BlockLockstep {
                                 ctx.cov.mark("giant_block_cycle_sums", sni.get(if mode == 1 { "last_block_cycles" } else { "cycles" }));
                             }
                             ctx.cov.mark("distinct", cell);
+                            if case.get("run_op") != 0 || (case.get("falls_through") == 0 && case.get("grid") == 0 && case.blobs.values().any(|b| b.len() > 120 && b.iter().take(120).all(|x| *x == 0))) {
+                                ctx.cov.hit("probe.run_length_blocks_executed");
+                            }
                             if case.get("grid") != 0 && execs == 1 {
                                 ctx.cov.mark("operand_grid_cells", (fenc as u64) << 16 | ((before.af as u64 >> 8) & 0xff) << 8 | (before.bc as u64 & 0xff));
                             }
